@@ -1,26 +1,30 @@
 """C07 — channels account for every message with the specified delay, busy and drop rules.
 
-script (see coq/Channel/Model.v `run`, harness/src/bin/chan.rs):
-  seed brk br lat jit pol lim  ntx (len tx)*  norc j*  (t len)*
-    bitrate = br (brk = 0) | usize::MAX (brk = 1); pol 0 Drop | 1 Queue(None) | 2 Queue(Some lim)
+script (see coq/Channel/Multi.v `run`, harness/src/bin/chan.rs):
+  seed brk br lat jit pol lim  nl mode{nl}  ntx (len tx)*  norc (c j)*  (t c len)*
+    bitrate = br (brk = 0) | usize::MAX (brk = 1); pol 0 Drop | 1 Queue(None) | 2 Queue(Some lim);
+    nl in 1..3 links between two modules, channel 2i = forward, 2i+1 = reverse direction of link i; mode of a link:
+    0 connected before the run with its own Channel::new, 1 with a clone of one shared template handle, 2 connected at
+    run time (inside the handler that first sends on it) with the live forward channel of link 0 as template;
     tx table: transmission time in ns per message length (the model's oracle for calculate_busy; computed
     here with the same IEEE-754 operations the code uses and re-reported by the implementation);
-    oracle: the jitter samples of the seeded run, in transmission order (model only; for jittered scripts the
-    generator obtains them from a first run of the implementation);
-    offers: message m = script position, total length max(64,len) bytes, `send`t at time t; consecutive offers
-    with equal time are one burst (one handler invocation).
-output: 7 n (len tx)* then records  1 m t (transmission start) | 2 m t (arrival) | 3 t busy finish pk by (sample) |
-        4 m f (fate of a send: 0 started, 1 dropped/Drop, 2 dropped/queue full, 3 queued) | 13 (run() returned Err)
+    oracle: the jitter samples of the seeded run as (channel, sample) in transmission order (model only; for jittered
+    scripts the generator obtains them from a first run of the implementation);
+    offers: message m = script position, total length max(64,len) bytes, `send`t at time t into channel c mod 2nl;
+    consecutive offers with equal time and equal sending module (parity of c) are one burst (one handler invocation).
+output: 7 n (len tx)* then records  1 c m t (transmission start) | 2 c m t (arrival) | 3 c t busy finish pk by (sample) |
+        4 c m f (fate of a send: 0 started, 1 dropped/Drop, 2 dropped/queue full, 3 queued) | 13 (run() returned Err)
 """
 import os, subprocess, itertools
 from fractions import Fraction
 
 ID = "C07"; MODEL = "chan"; IMPL = "chan"
 COQ_PROP = "Properties/C07.v"; COQ_DIRS = ["Common", "Channel"]
-COQ_MODULE = "Channel.Model"; RUN_FN = "run"
+COQ_MODULE = "Channel.Multi"; RUN_FN = "run"
 THEOREMS = ["C07_account", "C07_account_none_twice", "C07_run_completes", "C07_idle_implies_queue_empty", "C07_delivery_time",
             "C07_started_delivered_or_in_flight", "C07_busy_span", "C07_unbusy_stamp", "C07_fifo_start", "C07_direct_start",
-            "C07_fifo_order", "C07_zero_jitter_preserves_order", "C07_queue_limit"]
+            "C07_fifo_order", "C07_zero_jitter_preserves_order", "C07_queue_limit", "C07_links_independent",
+            "C07_multi_transfer", "C07_multi_channel_wf", "C07_new_instance_starts_idle", "C07_template_state_irrelevant"]
 QUICK_N = 3000; THOROUGH_N = 200000
 XCHECK_N = 40
 CLAIM = dict(
@@ -36,13 +40,18 @@ CLAIM = dict(
          "start + tx, in between every offer is dropped or queued and is_busy/transmission_finish_time read busy/that time, outside "
          "offers start at once; (FIFO) a queued message starts only as head of the queue, in the handler of the Unbusy event of that "
          "very instant, direct starts only with an empty queue; (zero jitter) deliveries in order are an initial piece of the accepted "
-         "offers in offer order; (queue limit) acc_bytes = sum of queued lengths and a busy offer is queued iff acc + len <= limit. "
+         "offers in offer order; (queue limit) acc_bytes = sum of queued lengths and a busy offer is queued iff acc + len <= limit; "
+         "(independence of channel instances) with any number of channels on one event set -- both directions of a link, several "
+         "links built from one template handle, links connected at run time -- the record, samples and log of channel c are those of "
+         "the single-channel run on c's own part of the script, so all of the above holds per channel whatever the other channels "
+         "carry, and a new instance starts idle whatever state its template is in. "
          "The model (send_message, unbusy, drop handling, the Unbusy/Exit/wake-up events ordered by the two-list event-set "
          "specification that C01 proves the calendar queue refines) is tied to des on every run by differential execution against the "
-         "real Sim/Channel API (two modules, one channel, scripted sender, logging receiver, ChannelProbe, is_busy / "
+         "real Sim/Channel API (two modules joined by 1..3 links, both sending and receiving, links built from own / shared / live "
+         "template handles before or during the run, ChannelProbe, is_busy / "
          "transmission_finish_time / Debug queue size sampled in handlers), exact comparison incl. jittered seeded runs, plus a monitor "
-         "stating C07 on the implementation's log alone. Pinned-code defects F5 (stuck queue) and F15 (same-instant reorder with zero "
-         "latency) have exists-witnesses in coq/Refuted/C07.v and regression scripts in corpus/C07.",
+         "stating C07 on the implementation's log alone. Pinned-code defects F5 (stuck queue), F15 (same-instant reorder with zero "
+         "latency) and F18 (links built from one handle shared the reverse direction's channel) have exists-witnesses in coq/Refuted/C07.v and regression scripts in corpus/C07.",
     note="Trusted: Coq kernel; extraction (ExtrOcamlBasic) cross-checked in-Coq by vm_compute each run; harness and generator bound the "
          "tie to the code. calculate_busy (f64) and the rng are oracles of the model: tx enters as a per-script table that is recomputed "
          "with the same IEEE operations, echoed by the implementation and checked to be size*8/bitrate rounded to ns; jitter samples of "
@@ -50,24 +59,35 @@ CLAIM = dict(
          "for the transmission time' is stated in event order (an offer or sample processed in the finish instant before the Unbusy "
          "event still sees the channel busy). A transmission time below 0.5 ns rounds to 0 and does not occupy the channel; with "
          "jitter > 0 deliveries may reorder; queued messages are not re-checked against the sender's state (not part of C07). The "
-         "HandleMessageEvent following an exit in the same instant is folded into the Exit event. One sender, one channel; module "
-         "shutdown, several channels in a chain (C08) and u64/usize overflow are out of scope.",
+         "HandleMessageEvent following an exit in the same instant is folded into the Exit event. A run-time link is modelled as an "
+         "instance that is idle from the start; sufficiency of the multi-channel runner's fuel is checked (trailing 9), not proved. "
+         "All links of a script share one metrics value; module shutdown, several channels in a chain (C08) and u64/usize overflow "
+         "are out of scope.",
     technique="Coq invariant proofs over a closed event loop on the C01 event-set specification (trace well-formedness predicate, "
-              "count-based multiset accounting, timing and order invariants, termination measure) + differential correspondence check "
+              "count-based multiset accounting, timing and order invariants, termination measure; projection of the shared event set onto "
+              "one channel's own event set as a stuttering simulation) + differential correspondence check "
               "+ refutation witnesses for the pinned variants",
     design="6/C07")
 RULE = ("scripts from a structured generator: bitrate in {0,1,8,1e3,1e9,2e12,usize::MAX,random}, total sizes {64,65,1088,65600}, "
         "latency {0,1,1e3,1e6,random}, jitter 0 (75%) or {1,2,3,10,1e3,1e6} (the oracle is then read off a first run of the "
-        "implementation), Drop | Queue(None) | Queue(Some 0|len|2len-1|3len|random), 1..14 offers whose gaps are 0 (burst inside one "
-        "handler), tx-1, tx, tx+1, the remaining busy time -1/0/+1, tx+latency or a large value; non-trivial = distinct script (sha1) "
-        "hitting at least three targeted mechanisms")
+        "implementation), Drop | Queue(None) | Queue(Some 0|len|2len-1|3len|random); 40% one link one direction with 1..14 offers "
+        "whose gaps are 0 (burst inside one handler), tx-1, tx, tx+1, the remaining busy time -1/0/+1, tx+latency or a large value; "
+        "60% 1..3 links between two modules (each link: own Channel::new | clone of one shared template handle | connected at run "
+        "time from the live forward channel of link 0) with such offer sequences on 2..4 channels merged by time (both directions "
+        "of a link overlapping, the same direction of several template links overlapping, one handler sending into several "
+        "channels, a run-time link first used while its template transmits); non-trivial = distinct script (sha1) hitting at "
+        "least three targeted mechanisms")
 TRUSTED = ["ChannelMetrics::calculate_busy enters the model as a per-script table (recomputed here with the same f64 operations, "
            "echoed by the implementation and compared; checked to be within rounding of len*8e9/bitrate)",
-           "jitter samples enter the model as an oracle list; for jittered runs it is read off the implementation's own run",
+           "jitter samples enter the model as per-channel oracle lists; for jittered runs they are read off the implementation's own run",
            "the queue size (packets, bytes) is observed through the channel's Debug output while busy; enqueue vs drop is inferred from it",
-           "the HandleMessageEvent following a MessageExitingConnection in the same instant is folded into the Exit event of the model"]
-ASSUMPTIONS = ["fewer than 65536 messages per script (MessageId is u16)", "times below 2^62 ns",
-               "one sender, one channel, receiver never sends; the sender's module is never shut down"]
+           "the HandleMessageEvent following a MessageExitingConnection in the same instant is folded into the Exit event of the model",
+           "a link connected at run time is modelled as an instance that exists, idle, from the start (C07_new_instance_starts_idle: dup "
+           "copies metrics only); the harness connects it inside the handler that first sends on it",
+           "the fuel of the multi-channel runner (3 per offer + 1) is not proved sufficient; a trailing 9 in the model output reports "
+           "pending events (the single-channel fuel is proved: C07_run_completes)"]
+ASSUMPTIONS = ["fewer than 65536 messages per script (MessageId is u16)", "times below 2^62 ns", "at most 16 channel instances (3 links used)",
+               "all links of a script have the same metrics; two modules, never shut down; receivers do not reply"]
 
 HDR = 64
 UMAX = (1 << 64) - 1
@@ -94,27 +114,33 @@ def bitrate_of(script):
 
 # ----------------------------------------------------------------------------- script structure
 def parse(script):
-    """-> dict(seed, bitrate, lat, jit, pol, lim, tbl{len:tx}, oracle[], offers[(t,len)])"""
-    s = list(script) + [0] * max(0, 7 - len(script))
-    i = 7
+    """-> dict(seed, bitrate, lat, jit, pol, lim, nl, modes, tbl{len:tx}, oracle[(c,j)], offers[(t,c,len)])"""
+    s = list(script) + [0] * max(0, 8 - len(script))
+    nl = min(max(s[7], 1), 3)
+    i = 8
+    modes = (s[i:i + nl] + [0] * nl)[:nl]; i += nl
+    if modes[0] == 2:
+        modes[0] = 0
     k = s[i] if i < len(s) else 0
     tb = s[i + 1:i + 1 + k]; i += 1 + k
     k2 = s[i] if i < len(s) else 0
-    orc = s[i + 1:i + 1 + k2]; i += 1 + k2
+    ob = s[i + 1:i + 1 + k2]; i += 1 + k2
+    i = min(i, len(s))
     rest = s[i:]
-    offers = [(rest[j], max(HDR, rest[j + 1])) for j in range(0, len(rest) - 1, 2)]
+    offers = [(rest[j], rest[j + 1] % (2 * nl), max(HDR, rest[j + 2])) for j in range(0, len(rest) - 2, 3)]
     tbl = {}
     for j in range(0, len(tb) - 1, 2):
         tbl.setdefault(tb[j], tb[j + 1])
-    return dict(seed=s[0], bitrate=bitrate_of(s), lat=s[3], jit=s[4], pol=s[5], lim=s[6], tbl=tbl, oracle=orc,
-                offers=offers, hdr_end=i)
+    orc = [(ob[j], ob[j + 1]) for j in range(0, len(ob) - 1, 2)]
+    return dict(seed=s[0], bitrate=bitrate_of(s), lat=s[3], jit=s[4], pol=s[5], lim=s[6], nl=nl, modes=modes, tbl=tbl,
+                oracle=orc, offers=offers, hdr_end=i)
 
 
 def split(script):
     p = parse(script)
     hdr = list(script[:p["hdr_end"]])
     rest = list(script[p["hdr_end"]:])
-    ops = [rest[j:j + 2] for j in range(0, len(rest) - 1, 2)]
+    ops = [rest[j:j + 3] for j in range(0, len(rest) - 2, 3)]
     return hdr, ops
 
 
@@ -125,9 +151,11 @@ def join(hdr, ops):
     return out
 
 
-def build(seed, bitrate, lat, jit, pol, lim, offers, oracle=()):
+def build(seed, bitrate, lat, jit, pol, lim, offers, oracle=(), modes=(0,)):
+    """offers: (t, len) for channel 0 or (t, c, len); oracle: (c, j) pairs"""
+    offers = [o if len(o) == 3 else (o[0], 0, o[1]) for o in offers]
     lens = []
-    for _, l in offers:
+    for _, _, l in offers:
         l = max(HDR, l)
         if l not in lens:
             lens.append(l)
@@ -135,9 +163,12 @@ def build(seed, bitrate, lat, jit, pol, lim, offers, oracle=()):
     for l in lens:
         tb += [l, tx_ns(bitrate, l)]
     brk, br = (1, 0) if bitrate == UMAX else (0, bitrate)
-    s = [seed, brk, br, lat, jit, pol, lim, len(tb)] + tb + [len(oracle)] + list(oracle)
-    for t, l in offers:
-        s += [t, l]
+    ob = []
+    for c, j in oracle:
+        ob += [c, j]
+    s = [seed, brk, br, lat, jit, pol, lim, len(modes)] + list(modes) + [len(tb)] + tb + [len(ob)] + ob
+    for t, c, l in offers:
+        s += [t, c, l]
     return s
 
 
@@ -145,9 +176,10 @@ def pretty(script):
     p = parse(script)
     pol = {0: "Drop", 1: "Queue(None)"}.get(p["pol"], "Queue(Some(%d))" % p["lim"])
     br = "usize::MAX" if p["bitrate"] == UMAX else str(p["bitrate"])
-    offs = "; ".join("send#%d(len=%d)@%d" % (m, l, t) for m, (t, l) in enumerate(p["offers"]))
-    return "seed=%d bitrate=%s latency=%dns jitter=%dns %s tx=%s oracle=%s: %s" % (
-        p["seed"], br, p["lat"], p["jit"], pol, p["tbl"], p["oracle"], offs)
+    mode = {0: "own", 1: "shared-template", 2: "run-time-from-live-link0"}
+    offs = "; ".join("send#%d(ch%d,len=%d)@%d" % (m, c, l, t) for m, (t, c, l) in enumerate(p["offers"]))
+    return "seed=%d bitrate=%s latency=%dns jitter=%dns %s links=%s tx=%s oracle=%s: %s" % (
+        p["seed"], br, p["lat"], p["jit"], pol, [mode.get(x, "own") for x in p["modes"]], p["tbl"], p["oracle"], offs)
 
 
 def walk(out):
@@ -161,10 +193,12 @@ def walk(out):
         tbl.setdefault(out[i], out[i + 1]); i += 2
     recs = []
     err = False
-    size = {1: 3, 2: 3, 3: 6, 4: 3}
+    size = {1: 4, 2: 4, 3: 7, 4: 4}
     while i < len(out):
         if out[i] == 13 and i == len(out) - 1:
             err = True; break
+        if out[i] == 9 and i == len(out) - 1:
+            raise ValueError("events left pending")
         k = size.get(out[i])
         if k is None or i + k > len(out):
             raise ValueError("bad record at %d" % i)
@@ -182,7 +216,7 @@ def _analyse(script, out):
         return "malformed output: %s" % e, [], {}
     if err:
         return "run() returned an error", [], {}
-    offers, lat, jit, pol, lim, br = p["offers"], p["lat"], p["jit"], p["pol"], p["lim"], p["bitrate"]
+    br = p["bitrate"]
     # (0) the transmission time is size*8/bitrate up to rounding to whole ns
     for l, t in tbl.items():
         l = max(l, HDR)
@@ -195,7 +229,48 @@ def _analyse(script, out):
                 return "calculate_busy(%d B) = %d ns is not size*8/bitrate = %s ns rounded" % (l, t, float(exact)), [], {}
     def tx(l):
         return tbl[l] if l in tbl else tx_ns(br, l)
-    n = len(offers)
+    # every record carries the channel its message was sent into; time never runs backwards
+    chan_of = {m: c for m, (t, c, l) in enumerate(p["offers"])}
+    last = 0
+    per = {c: [] for c in range(2 * p["nl"])}
+    for r in recs:
+        c = r[1]
+        if c not in per:
+            return "record for unknown channel %d" % c, [], {}
+        if r[0] in (1, 2, 4):
+            if r[2] not in chan_of:
+                return "record for unknown message %d" % r[2], [], {}
+            if chan_of[r[2]] != c:
+                return "message %d was sent into channel %d but shows up on channel %d" % (r[2], chan_of[r[2]], c), [], {}
+        t = r[3] if r[0] in (1, 2) else (r[2] if r[0] == 3 else last)
+        if t < last:
+            return "time ran backwards", [], {}
+        last = t
+        per[c].append([r[0]] + r[2:])
+    # C07 for every channel instance on its own: what happens on the other channels must not matter
+    inversions = []
+    facts = dict(fates={}, starts={}, multi=0, zero_deq=0, exact=0, off1=0, at_unbusy=0, arrive={}, arr_order=[],
+                 start_order=[], busy_spans={}, tx=tx, p=p, jitter_reorders=False)
+    for c in sorted(per):
+        offs = {m: (t, l) for m, (t, cc, l) in enumerate(p["offers"]) if cc == c}
+        msg, inv, f = _chan(p, tx, offs, per[c])
+        if msg is not None:
+            return "channel %d: %s" % (c, msg), [], {}
+        inversions += inv
+        for k in ("fates", "starts", "arrive"):
+            facts[k].update(f[k])
+        for k in ("multi", "zero_deq", "exact", "off1", "at_unbusy"):
+            facts[k] += f[k]
+        so = [m for m in f["start_order"] if m in f["arrive"]]
+        if f["arr_order"] != so:
+            facts["jitter_reorders"] = True
+        facts["busy_spans"][c] = [(f["starts"][m], f["starts"][m] + tx(offs[m][1])) for m in f["start_order"]]
+    return None, inversions, facts
+
+
+def _chan(p, tx, offers, recs):
+    """C07 on the records of one channel instance (tags without the channel field); offers: id -> (time, len)."""
+    lat, jit, pol, lim = p["lat"], p["jit"], p["pol"], p["lim"]
     fate = {}; start = {}; arrive = {}; start_order = []; arr_order = []; offer_order = []
     queue = []            # queued, not yet started (ids, FIFO)
     cur = None            # finish time of the transmission the channel is (or may still be) busy with
@@ -207,7 +282,7 @@ def _analyse(script, out):
         tag = r[0]
         if tag == 1:
             _, m, t = r
-            if m >= n:
+            if m not in offers:
                 return "transmission of unknown message %d" % m, [], {}
             if m in start:
                 return "message %d transmitted twice" % m, [], {}
@@ -242,7 +317,7 @@ def _analyse(script, out):
             cur = t + tx(l) if tx(l) != 0 else None
         elif tag == 4:
             _, m, f = r
-            if m >= n or m in fate:
+            if m not in offers or m in fate:
                 return "message %d offered twice or unknown" % m, [], {}
             t = offers[m][0]
             l = offers[m][1]
@@ -278,7 +353,7 @@ def _analyse(script, out):
                     queue.append(m)
         elif tag == 2:
             _, m, t = r
-            if m >= n or m not in start:
+            if m not in offers or m not in start:
                 return "message %d delivered without having been transmitted" % m, [], {}
             if m in arrive:
                 return "message %d delivered twice" % m, [], {}
@@ -324,7 +399,7 @@ def _analyse(script, out):
                 if pk != len(queue) or by != acc:
                     return "sample at %d: queue shows %d packets / %d bytes, expected %d / %d" % (t, pk, by, len(queue), acc), [], {}
     # (accounting) every offer has exactly one fate, every transmitted message arrived exactly once, nothing is left over
-    for m in range(n):
+    for m in sorted(offers):
         if m not in fate:
             return "message %d was never offered (lost wake-up)" % m, [], {}
         if fate[m] in (0, 3):
@@ -349,7 +424,7 @@ def _analyse(script, out):
                     if arrive[a] != arrive[b2]:
                         return "zero jitter: message %d (offered later) delivered at %d before %d at %d" % (a, arrive[a], b2, arrive[b2]), [], {}
                     inversions.append((a, b2))
-    facts.update(arr_order=arr_order, arrive=arrive, start_order=start_order, tx=tx, p=p)
+    facts.update(arr_order=arr_order, arrive=arrive, start_order=start_order)
     return None, inversions, facts
 
 
@@ -376,14 +451,29 @@ def mechanisms(script, out):
     if p["pol"] == 2 and p["lim"] == 0: ms.add("queue_limit_0")
     if p["jit"]: ms.add("jitter")
     if p["lat"] == 0: ms.add("latency_0")
-    for (t0, l0), (t1, _) in zip(offers, offers[1:]):
-        g = t1 - t0
-        x = tx_ns(br, l0)
-        if g == 0: ms.add("burst")
-        elif g < x: ms.add("gap_lt_tx")
-        elif g == x: ms.add("gap_eq_tx")
-        else: ms.add("gap_gt_tx")
-    if any(tx_ns(br, l) == 0 for _, l in offers) and br != 0: ms.add("tx_rounds_to_0")
+    used = sorted({c for _, c, _ in offers})
+    for c in used:
+        mine = sorted(t_l for t_l in ((t, l) for t, cc, l in offers if cc == c))
+        for (t0, l0), (t1, _) in zip(mine, mine[1:]):
+            g = t1 - t0
+            x = tx_ns(br, l0)
+            if g == 0: ms.add("burst")
+            elif g < x: ms.add("gap_lt_tx")
+            elif g == x: ms.add("gap_eq_tx")
+            else: ms.add("gap_gt_tx")
+    if any(tx_ns(br, l) == 0 for _, _, l in offers) and br != 0: ms.add("tx_rounds_to_0")
+    if len(used) > 1: ms.add("several_channels")
+    if any(c % 2 for c in used) and any(c % 2 == 0 for c in used): ms.add("both_modules_send")
+    for (t0, c0, _), (t1, c1, _) in zip(offers, offers[1:]):
+        if t0 == t1 and c0 != c1 and c0 % 2 == c1 % 2: ms.add("one_handler_sends_into_several_channels")
+    runlen = best = 0
+    for i, (t0, c0, _) in enumerate(offers):
+        runlen = runlen + 1 if i and offers[i - 1][0] == t0 and offers[i - 1][1] % 2 == c0 % 2 else 1
+        best = max(best, runlen)
+    if best >= 24: ms.add("one_handler_buffers_many_events")
+    links_used = {c // 2 for c in used}
+    if sum(1 for i in links_used if p["modes"][i] == 1) >= 2: ms.add("several_links_from_one_template")
+    if any(p["modes"][i] == 2 for i in links_used): ms.add("link_connected_at_run_time")
     try:
         msg, inv, f = _analyse(script, out)
     except Exception:
@@ -400,10 +490,22 @@ def mechanisms(script, out):
     if f["off1"]: ms.add("queue_over_by_one")
     if f["at_unbusy"]: ms.add("offer_at_unbusy_instant_still_busy")
     if inv: ms.add("same_instant_reorder")
-    if msg is None and p["jit"]:
-        ao = f["arr_order"]
-        so = [m for m in f["start_order"] if m in f["arrive"]]
-        if ao != so: ms.add("jitter_reorders")
+    if p["jit"] and f["jitter_reorders"]: ms.add("jitter_reorders")
+    sp = f["busy_spans"]
+
+    def overlap(a, b):
+        return any(x0 < y1 and y0 < x1 for x0, x1 in sp.get(a, []) for y0, y1 in sp.get(b, []))
+    for i in range(p["nl"]):
+        if overlap(2 * i, 2 * i + 1): ms.add("both_directions_of_a_link_busy_at_once")
+    shared = [i for i in range(p["nl"]) if p["modes"][i] == 1]
+    for i in shared:
+        for j in shared:
+            if i < j and (overlap(2 * i + 1, 2 * j + 1) or overlap(2 * i, 2 * j)): ms.add("same_direction_of_two_template_links_busy_at_once")
+    for i in range(1, p["nl"]):
+        if p["modes"][i] == 2:
+            first = min([t for t, c, _ in offers if c // 2 == i], default=None)
+            if first is not None and any(x0 <= first < x1 for x0, x1 in sp.get(0, [])):
+                ms.add("run_time_connect_while_template_transmits")
     return ms
 
 
@@ -417,22 +519,8 @@ LATS = [0, 0, 1, 1000, 10 ** 6]
 JITS = [1, 2, 3, 10, 1000, 10 ** 6]
 
 
-def gen_plain(rng):
-    br = rng.choice(BITRATES) if rng.random() < 0.8 else rng.choice([3, 7, 12345, 64 * 8, 10 ** 6 + 1, 8 * 10 ** 9, 4 * 10 ** 12, 10 ** 15, 1 << 53, (1 << 62) - 1])
-    sizes = rng.sample(SIZES, rng.randint(1, 3)) if rng.random() < 0.85 else [rng.randint(64, 3000) for _ in range(2)]
-    if br >= 10 ** 12 and rng.random() < 0.7:
-        sizes = [64, 1088] + sizes[:1]
-    lat = rng.choice(LATS) if rng.random() < 0.8 else rng.randint(0, 5000)
-    jit = 0 if rng.random() < 0.75 else rng.choice(JITS)
-    r = rng.random()
-    base = rng.choice(sizes)
-    if r < 0.2: pol, lim = 0, 0
-    elif r < 0.45: pol, lim = 1, 0
-    else:
-        pol = 2
-        lim = rng.choice([0, base, 2 * base - 1, 2 * base, 3 * base, base + 64, rng.randint(0, 4 * base)])
-    n = rng.randint(1, 14)
-    t = rng.choice([0, 0, 1, 1000])
+def gen_chan(rng, br, sizes, lat, pol, n, t):
+    """offers (t, len) for one channel: gaps chosen relative to the transmission times"""
     offers = []
     busy_until = 0
     prev_tx = 0
@@ -450,7 +538,66 @@ def gen_plain(rng):
             busy_until += x      # roughly: queued behind
         prev_tx = x
         offers.append((t, l))
-    return build(rng.randint(0, 10 ** 6), br, lat, jit, pol, lim, offers)
+    return offers
+
+
+def gen_plain(rng):
+    br = rng.choice(BITRATES) if rng.random() < 0.8 else rng.choice([3, 7, 12345, 64 * 8, 10 ** 6 + 1, 8 * 10 ** 9, 4 * 10 ** 12, 10 ** 15, 1 << 53, (1 << 62) - 1])
+    sizes = rng.sample(SIZES, rng.randint(1, 3)) if rng.random() < 0.85 else [rng.randint(64, 3000) for _ in range(2)]
+    if br >= 10 ** 12 and rng.random() < 0.7:
+        sizes = [64, 1088] + sizes[:1]
+    lat = rng.choice(LATS) if rng.random() < 0.8 else rng.randint(0, 5000)
+    jit = 0 if rng.random() < 0.75 else rng.choice(JITS)
+    r = rng.random()
+    base = rng.choice(sizes)
+    if r < 0.2: pol, lim = 0, 0
+    elif r < 0.45: pol, lim = 1, 0
+    else:
+        pol = 2
+        lim = rng.choice([0, base, 2 * base - 1, 2 * base, 3 * base, base + 64, rng.randint(0, 4 * base)])
+    t0 = rng.choice([0, 0, 1, 1000])
+    r = rng.random()
+    if r < 0.04:
+        # one handler buffers many events with equal and with decreasing timestamps: zero-time messages start at once
+        # (exits stamped now + latency), a long one then occupies the channel (exit scheduled before its earlier unbusy)
+        br = rng.choice([2 * 10 ** 12, 4 * 10 ** 12, 0])
+        nl = rng.choice([2, 3, 3])
+        w = rng.choice([0, 1])
+        offers = []
+        for i in range(nl):
+            offers += [(t0, 2 * i + w, 64)] * rng.randint(6, 16) + [(t0, 2 * i + w, 1088)] + [(t0, 2 * i + w, 64)] * rng.randint(0, 3)
+        if rng.random() < 0.5:
+            rng.shuffle(offers)
+        return build(rng.randint(0, 10 ** 6), br, rng.choice([0, 1, 1000]), 0, rng.choice([0, 1, 1]), 0, offers,
+                     modes=tuple(rng.choice([0, 1]) for _ in range(nl)))
+    if r < 0.4:
+        # one link, one direction
+        offers = [(t, 0, l) for t, l in gen_chan(rng, br, sizes, lat, pol, rng.randint(1, 14), t0)]
+        return build(rng.randint(0, 10 ** 6), br, lat, jit, pol, lim, offers, modes=(rng.choice([0, 0, 1]),))
+    nl = rng.choice([1, 2, 2, 3])
+    kind = rng.random()
+    if kind < 0.3: modes = [0] * nl
+    elif kind < 0.6: modes = [1] * nl
+    elif kind < 0.8: modes = [0] + [2] * (nl - 1)
+    else: modes = [rng.choice([0, 1])] + [rng.choice([0, 1, 2]) for _ in range(nl - 1)]
+    chans = rng.sample(range(2 * nl), rng.randint(2, min(2 * nl, 4))) if nl > 1 else [0, 1]
+    if rng.random() < 0.5 and nl > 1:
+        # the same direction of several links (reverse: the instances a shared handle used to alias)
+        d = rng.choice([0, 1, 1])
+        chans = [2 * i + d for i in range(nl)] + ([rng.randrange(2 * nl)] if rng.random() < 0.3 else [])
+        chans = list(dict.fromkeys(chans))
+    if 2 in modes and 0 not in chans and rng.random() < 0.8:
+        chans = [0] + chans        # the template link should be transmitting when a run-time link is connected
+    per = max(1, 12 // len(chans))
+    merged = []
+    for c in chans:
+        start = t0 + rng.choice([0, 0, 1, tx_ns(br, sizes[0]) // 2, tx_ns(br, sizes[0])])
+        for t, l in gen_chan(rng, br, sizes, lat, pol, rng.randint(1, per + 1), start):
+            merged.append((t, rng.random(), c, l))
+    merged.sort(key=lambda o: (o[0], o[2] % 2 if rng.random() < 0.5 else o[1]))
+    merged.sort(key=lambda o: o[0])
+    offers = [(t, c, l) for t, _, c, l in merged]
+    return build(rng.randint(0, 10 ** 6), br, lat, jit, pol, lim, offers, modes=tuple(modes))
 
 
 def _impl_bin():
@@ -461,7 +608,7 @@ def _impl_bin():
 
 def fill_oracles(scripts):
     """For scripts with jitter: run the implementation once and record the samples it drew
-    (arrival - start - tx - latency, in transmission order) as the model's oracle."""
+    (arrival - start - tx - latency, per channel in transmission order) as the model's oracle."""
     idx = [i for i, s in enumerate(scripts) if s[4] != 0]
     if not idx or not os.path.exists(_impl_bin()):
         return scripts
@@ -478,16 +625,16 @@ def fill_oracles(scripts):
         except Exception:
             continue
         p = parse(scripts[i])
-        starts = [(r[1], r[2]) for r in recs if r[0] == 1]
-        arr = {r[1]: r[2] for r in recs if r[0] == 2}
+        starts = [(r[1], r[2], r[3]) for r in recs if r[0] == 1]
+        arr = {r[2]: r[3] for r in recs if r[0] == 2}
         orc = []
-        for m, t in starts:
+        for c, m, t in starts:
             if m in arr and m < len(p["offers"]):
-                l = p["offers"][m][1]
-                orc.append(max(0, arr[m] - t - tbl.get(l, 0) - p["lat"]))
+                l = p["offers"][m][2]
+                orc.append((c, max(0, arr[m] - t - tbl.get(l, 0) - p["lat"])))
             else:
-                orc.append(0)
-        scripts[i] = build(p["seed"], p["bitrate"], p["lat"], p["jit"], p["pol"], p["lim"], p["offers"], orc)
+                orc.append((c, 0))
+        scripts[i] = build(p["seed"], p["bitrate"], p["lat"], p["jit"], p["pol"], p["lim"], p["offers"], orc, tuple(p["modes"]))
     return scripts
 
 
@@ -498,8 +645,10 @@ def gen(rng, n):
 
 
 def exhaustive():
-    """All sequences of <= 4 offers over gaps {0, tx-1, tx, tx+1} x 2 sizes x 3 policies x 2 latencies, for a
-    bitrate where the small size's transmission time rounds to 0 and one where it does not."""
+    """(1) one channel: all sequences of <= 4 offers over gaps {0, tx-1, tx, tx+1} x 2 sizes x 3 policies x 2 latencies, for a
+    bitrate where the small size's transmission time rounds to 0 and one where it does not; (2) two channels (both directions
+    of one link, and the reverse directions of two links built from one template): all sequences of <= 4 offers over
+    2 channels x gaps {0, tx/2, tx} x 3 policies."""
     out = []
     for br, big_tx in ((2 * 10 ** 12, 4), (8 * 10 ** 9, 1088)):
         gaps = [0, big_tx - 1, big_tx, big_tx + 1]
@@ -517,4 +666,19 @@ def exhaustive():
                             offers.append((t, l))
                         else:
                             out.append(build(1, br, lat, 0, pol, lim, offers))
+    br, x = 8 * 10 ** 9, 1088
+    for modes, pair in (((0,), (0, 1)), ((1, 1), (1, 3)), ((0, 2), (0, 2))):
+        for pol, lim in ((0, 0), (1, 0), (2, 1088)):
+            for k in range(1, 5):
+                for combo in itertools.product(itertools.product((0, x // 2, x), pair), repeat=k):
+                    t = 0
+                    offers = []
+                    for i, (g, c) in enumerate(combo):
+                        if i:
+                            t += g
+                        elif g != 0:
+                            break
+                        offers.append((t, c, 1088))
+                    else:
+                        out.append(build(1, br, 1000, 0, pol, lim, offers, modes=modes))
     return out
